@@ -100,6 +100,14 @@ def cases(tier, seed):
         c["kind"] = "crystal"
         c["data_seed"] = k
         yield c
+    # oblique cells over a finer sweep of g_max: the number of grid points per axis follows ceil(g_max / dk), so both
+    # parities of that count and every fractional part of g_max / dk have to occur for the inversion symmetry clause
+    sweep = [1.0, 1.3, 1.55, 1.8, 2.15, 2.5, 3.0] if tier == "quick" else [round(0.9 + 0.11 * j, 3) for j in range(26)]
+    for k, g in enumerate(sweep):
+        for cell in ("hexagonal", "triclinic"):
+            yield dict(kind="crystal", cell=cell, centring="P", centering_arg="auto", g_max=g, sigma=["zero", "scalar"][k % 2],
+                       occupancy="one", cutoff=["taper", "hard"][k % 2], parametrization="lobato", lazy=False, basis=1 + k % 2,
+                       data_seed=700 + k)
     # every centring once with auto detection and once with its symbol, smallest g_max
     for k, cen in enumerate(CENTRINGS):
         for arg in ("auto", "symbol"):
